@@ -50,6 +50,7 @@ TRIGGER_SIGS = {
     'ftrptr_section_one_too_long': 'C38:ftrptr_section_one_too_long:stack-array-out-of-bounds',
     'directidx_offset_dropped': 'C38:directidx_offset_dropped:wrong-result',
     'directidx_stack_one_short': 'C38:directidx_stack_one_short:stack-array-out-of-bounds',
+    'directidx_discontiguous_section': 'C38:directidx_discontiguous_section:wrong-result',
     'rawstack_kind_only_in_callee': 'C38:rawstack_kind_only_in_callee:candidate-does-not-compile',
     'sccs_stack_positional': 'C38:sccs_stack_positional:candidate-does-not-compile',
     'pool_empty_stack': 'C38:pool_empty_stack:wrong-result',
@@ -76,6 +77,9 @@ def case_triggers(case):
       directidx_stack_one_short    DirectIdx stack: positions start at 1 and the offset of the first element is 1 as well: the last
                                temporary on the deepest path ends one element beyond the stack.
                                (no DirectIdx variant is generated while either of the two is listed; their replays are hand-written)
+      directidx_discontiguous_section  DirectIdx stack: an array section of a temporary that is not contiguous in memory
+                               (t(start:end, :) with start:end not the whole first dimension) is linearised into ONE contiguous stack
+                               section (gen_scc.temp_section_over_levels: some temporary is initialised as t(start:end, :))
       rawstack_kind_only_in_callee Raw stack: a kernel without a stack temporary of some type/kind calls a kernel that has one
                                (gen_scc.rawstack_kind_only_in_callee, conservative)
       sccs_stack_positional        SCCS{RawStack,StackFtrPtr,StackDirectIdx}Pipeline: the sequential revector stage appends the horizontal
@@ -96,6 +100,8 @@ def case_triggers(case):
         t.append('ftrptr_section_one_too_long')
     if v['alloc'] == 'pool' and not v.get('loc_rhs') and 'model' in case and pool_may_be_empty(case['model']):
         t.append('pool_empty_stack')
+    if v['alloc'] == 'directidx' and 'model' in case and gen_scc.temp_section_over_levels(case['model']):
+        t.append('directidx_discontiguous_section')
     if v.get('scc') == 'S' and v['alloc'] in ('rawstack', 'ftrptr', 'directidx'):
         t.append('sccs_stack_positional')
     if v['alloc'] == 'rawstack' and 'model' in case and gen_scc.rawstack_kind_only_in_callee(case['model']):
@@ -219,6 +225,9 @@ def cases(draw, prof, triggers, first=0, salt=None):
         if a == 'directidx' and not (triggers['directidx_offset_dropped'] and triggers['directidx_stack_one_short']):
             # every DirectIdx variant runs into one of the two listed findings: none is generated while either is listed
             avoided.append('directidx_offset_dropped|directidx_stack_one_short')
+            a = 'rawstack'
+        if a == 'directidx' and not triggers['directidx_discontiguous_section'] and gen_scc.temp_section_over_levels(m):
+            avoided.append('directidx_discontiguous_section')
             a = 'rawstack'
         if a == 'rawstack' and not triggers['rawstack_kind_only_in_callee'] and gen_scc.rawstack_kind_only_in_callee(m):
             avoided.append('rawstack_kind_only_in_callee')
